@@ -737,9 +737,12 @@ def passthrough_problems(case, impl) -> list[str]:
 
 
 def correspondence(ctx, n_cases: int, n_exact: int, max_periods: int, pid: str, contributions=True) -> CorrResult:
+    import time as _time
     res = CorrResult()
     notes: dict = {}
+    _t00 = _time.time()
     pairs = collect_cases(ctx, n_cases, max_periods, notes)
+    ctx.log(f"correspondence: implementation run on {len(pairs)} cases, {_time.time() - _t00:.0f}s")
     # a few tiny cases are evaluated on exact rationals as well
     exact_pairs = []
     tries = 0
@@ -785,8 +788,16 @@ def correspondence(ctx, n_cases: int, n_exact: int, max_periods: int, pid: str, 
         dist["missing_cells"] += sum(len(c) - sum(c) for c in cols)
         if any(any(c) for c in cols) and case["nper"] >= 2:
             keys.add(repr((case["model"]["source"], case["data"], case["mask"], case["deviation"])))
-    for i in range(0, len(main), per):
-        jobs.append(("CFX", main[i:i + per]))
+    # balance the shards: longest-processing-time first on an estimate of the cost of a case
+    nbins = max(1, min(core.NCPU, len(main)))
+    bins = [[0.0, []] for _ in range(nbins)]
+    for item in sorted(main, key=lambda it: -(it[0]["nper"] * (it[1]["Ta"].shape[0] + 2) ** 3)):
+        b = min(bins, key=lambda x: x[0])
+        b[0] += item[0]["nper"] * (item[1]["Ta"].shape[0] + 2) ** 3
+        b[1].append(item)
+    for _, items in bins:
+        if items:
+            jobs.append(("CFX", items))
     for item in prepared[len(pairs):]:
         jobs.append(("CBQ", [item]))
     texts = []
@@ -795,7 +806,10 @@ def correspondence(ctx, n_cases: int, n_exact: int, max_periods: int, pid: str, 
         for k, (case, impl, vals, labels) in enumerate(items):
             t.append(coq_case(k, case, impl, vals))
         texts.append("\n".join(t))
+    import time as _time
+    _t0 = _time.time()
     results = core.run_cases(ctx, texts, prefix=f"kf_{pid}", timeout=1500)
+    ctx.log(f"correspondence: {len(prepared)} cases in {len(texts)} Coq shards, {_time.time() - _t0:.0f}s")
     res.shards = len(texts)
     n_values = 0
     for (carrier, items), (ok, out) in zip(jobs, results):
@@ -829,6 +843,13 @@ def correspondence(ctx, n_cases: int, n_exact: int, max_periods: int, pid: str, 
                 res.disagreements.append(Disagreement(f"likelihood: {msg} [{carrier}]", case_summary(case), None, msg))
     for item in notes.get("impl_raised", []):
         res.disagreements.append(Disagreement("kalman_filter raised", item["case"], None, item["error"]))
+    rejected = notes.get("skipped_ill_conditioned", 0) + notes.get("skipped_singular", 0) + notes.get("skipped_unit_root", 0)
+    if len(pairs) < max(1, n_cases // 2) or rejected > len(pairs):
+        # fail closed: a run that rejects most of its cases (e.g. because the implementation's F matrices look
+        # singular) proves nothing
+        res.disagreements.append(Disagreement(
+            f"only {len(pairs)} of {n_cases} requested cases were usable ({rejected} rejected as singular / "
+            f"ill-conditioned / unit-root)", None, None, dict(notes, impl_raised=len(notes.get('impl_raised', [])))))
     res.evaluations = len(prepared)
     res.distinct_nontrivial = len(keys)
     dist["values_compared"] = n_values
